@@ -208,7 +208,9 @@ def o145(ctx):
         it.run(q2, [vol, coord, S], {"enforce_shape": K(enforce)})
         fulls = [e for e in it.events if e.kind == "call" and e.name == "numpy.full"]
         ctx.count(1, {"enforce_shape": enforce, "np.full": [tm.show(to_term(e.arg(1)))[:60] for e in fulls]})
-        if len(fulls) != 1 or to_term(fulls[0].arg(1)) != call("reduce:mean", sym("volume"), const(None)):
+        filled = to_term(fulls[0].extra["ret"]) if len(fulls) == 1 and fulls[0].extra.get("ret") is not None else None  # value every voxel starts with
+        if len(fulls) != 1 or to_term(fulls[0].arg(1)) != call("reduce:mean", sym("volume"), const(None)) \
+                or filled != call("reduce:mean", sym("volume"), const(None)):
             ctx.finding(q2, fulls[0].node if fulls else fn2, "voxels outside the volume must be set to the mean of the volume "
                         "(np.full(shape, np.mean(volume)))", fulls[0].node if fulls else fn2, m2)
         want_shape = sym("volume") if enforce else None
